@@ -40,3 +40,7 @@ pub fn sleep(dur: Duration) {
     // consume the timeout error
     get_co_para();
 }
+
+#[cfg(kani)]
+#[path = "/verif/harness/may/sleep.rs"]
+mod verif_kani;
